@@ -60,6 +60,21 @@ def gen_cases(tier, rng):
                         continue
                     r0 = 0 if rng.below(3) else (bits64(0.375) if fmt == 64 else bits32(0.375))
                     cases.append("p2p %d %s %d %d %d %s %s" % (fmt, routine, ns, nt, r0, words(src, fmt), words(tgt, fmt)))
+    # block boundaries of larger loops (64 / 128 / 256-wide blocking or unrolling), every routine, both sides
+    big = [63, 64, 65, 127, 128, 129, 255, 256, 257] if tier == "quick" else [63, 64, 65, 127, 128, 129, 255, 256, 257, 511, 512, 513, 767, 768, 769]
+    for k, n in enumerate(big):
+        fmt = (64, 32)[k % 2] if tier == "quick" else None
+        for f in ((fmt,) if fmt else (64, 32)):
+            se = rng.choice([-3, 0, 3]); sp = se + rng.choice([-2, 0, 2])
+            tgt = gen_particles(rng, n, f, se, sp, 1)
+            if len(set(tuple(p[:3]) for p in tgt)) == len(tgt):
+                cases.append("p2p %d inner 0 %d 0 %s" % (f, n, words(tgt, f)))
+            for routine in ("remote", "mutual"):
+                for ns, nt in ((n, rng.choice([1, 2, 3])), (rng.choice([1, 2, 3]), n)):
+                    src = gen_particles(rng, ns, f, se, sp, 1); tg2 = gen_particles(rng, nt, f, se, sp, 1)
+                    allp = [tuple(p[:3]) for p in src + tg2]
+                    if len(set(allp)) == len(allp):
+                        cases.append("p2p %d %s %d %d 0 %s %s" % (f, routine, ns, nt, words(src, f), words(tg2, f)))
     return cases
 
 
@@ -140,7 +155,7 @@ def run(tier, seed):
         cases = gen_cases(tier, rng)
         vlib.differential(rep, binary, cases, sdir, "p2p", oracle=oracle, canon=lambda c, l: l.split(), nontrivial=lambda c, i: int(c.split()[4]) >= 2,
                           clause=lambda c: "p2p:%s:%s" % (c.split()[1], c.split()[2]))
-        rep.coverage["rule"] = ("routines {GenericFullRemote, FullMutual, GenericInner} x {double, float} x counts around SIMD-width multiples (0,1,2,3,4,5,7,8,9,15,16,17,31,32,33; thorough up to 500) "
+        rep.coverage["rule"] = ("routines {GenericFullRemote, FullMutual, GenericInner} x {double, float} x counts around SIMD-width multiples (0,1,2,3,4,5,7,8,9,15,16,17,31,32,33; thorough up to 500) and around 64/128/256-wide blocks (63..257; thorough ..769) on either side "
                                 "x separations 2^-40..2^40 x charges of either sign x zero/non-zero initial accumulators; bit-identity with the SpecFloat instance of the Gallina model + 60-digit reference; non-trivial = >= 2 targets")
         return rep.finish()
     finally:
